@@ -37,6 +37,24 @@ Proof.
     change 0%Z with (Z.of_nat 0). rewrite !map_nth. unfold lab_of.
     destruct (orb _ _); [reflexivity|]. destruct (negb _); [reflexivity|]. symmetry. apply vset_same.
 Qed.
+
+(* fast_metric_intersection (umap_.py, C16), translated for metric_args = () with the function argument `metric` as an opaque pure
+   function of two label rows: every stored value is multiplied by exp(-(scale * metric(space[i], space[j]))) where (i, j) is its
+   position; positions, order and length of the value array are unchanged.  Over every Num, for every metric function. *)
+Definition metric_attenuate (metric : list N -> list N -> N) (space : list (list N)) (scale : N) (i j : nat) (a : N) : N :=
+  mul N a (nexp N (neg N (mul N scale (metric (nth i space []) (nth j space []))))).
+
+Theorem src_fast_metric_intersection_eq (metric : list N -> list N -> N) (rs cs : list nat) (vs : list N) (space : list (list N)) (scale : N) :
+  length rs = length vs -> length cs = length vs ->
+  src_fast_metric_intersection N metric (map Z.of_nat rs) (map Z.of_nat cs) vs space scale
+  = map (fun e => metric_attenuate metric space scale (fst (fst e)) (snd (fst e)) (snd e)) (combine (combine rs cs) vs).
+Proof.
+  intros L1 L2. unfold src_fast_metric_intersection. cbv zeta. unfold zlen. rewrite map_length.
+  rewrite (for_range_update N (fun k a => metric_attenuate metric space scale (nth k rs 0%nat) (nth k cs 0%nat) a) (length rs) vs); [|lia|].
+  - apply (mapi_from_combine2 0%nat 0%nat (fun (i j : nat) (a : N) => metric_attenuate metric space scale i j a) vs rs cs 0 _ L1 L2).
+    intros i c Hi. reflexivity.
+  - intros k vals. rewrite !inth_of_nat. change 0%Z with (Z.of_nat 0). rewrite !map_nth. unfold mrow. rewrite !znth_of_nat. reflexivity.
+Qed.
 End Generic.
 
 (* make_epochs_per_sample (umap_.py, C07): one entry per weight, n_epochs / (n_epochs * (w / w_max)) where that is positive,
